@@ -2,9 +2,8 @@ module github.com/ModChain/secp256k1
 
 go 1.21.3
 
-require github.com/ModChain/blake256 v1.0.0
-
 require (
-	github.com/ModChain/base58 v1.0.0 // indirect
-	golang.org/x/crypto v0.19.0 // indirect
+	github.com/ModChain/base58 v1.0.0
+	github.com/ModChain/blake256 v1.0.0
+	golang.org/x/crypto v0.19.0
 )
